@@ -230,5 +230,31 @@ impl Logs {
     }
 //!end
 }
+
+// ---- Table::new: every command that consults the records starts here ----
+//!type src/core/tracking.rs Table
+pub struct Table {
+    pub run_path: path::PathBuf,
+    pub checkpoint_path: path::PathBuf,
+}
+//!end
+impl<'a> Table {
+//!fn src/core/tracking.rs Table::new rules=R10,R17 props=C13,C12
+    pub(crate) fn new(dir_path: &'a path::Path, Tracked(w): Tracked<&mut World>) -> ⟦(res: ⟧Result<Self, MonorailError>⟦)⟧
+@        ensures
+@            // C13: preparing the table (every `run`, `result show`, `log show`, `checkpoint ..` does it first) makes sure the directory exists
+@            // and changes no file - whatever a killed run left behind stays as it is
+@            final(w).fs =~= old(w).fs, // [C13]
+@            // C12 / C19: the records are <dir>/run.json and <dir>/checkpoint.json.zst
+@            res matches Ok(t) ==> t.run_path@ == path_join(dir_path@, "run.json"@) && t.checkpoint_path@ == path_join(dir_path@, "checkpoint.json.zst"@), // [C12]
+    {
+        fs::create_dir_all(dir_path, Tracked(w))?;
+        Ok(Self {
+            run_path: dir_path.join("run.json"),
+            checkpoint_path: dir_path.join("checkpoint.json.zst"),
+        })
+    }
+//!end
+}
 } // verus!
 fn main() {}
